@@ -25,6 +25,21 @@ Script(k, a, p) ==
      BNewOp, BSetKeyOp(a, 0), GenerateOp(0),
      CNewOp, CSetKeyOp(a, 1), VerifyOp([src |-> "slot", slot |-> 0]),
      VerifyOp(Tok(a, <<>>, Pm, Sig("valid", a, Pub(k)))) >>
+\* an algorithm with a key that is not of its kind at all (setkey admits an explicit algorithm with any key
+\* that has no alg): in particular EdDSA with a key that is neither Ed25519 nor Ed448.  The token offered
+\* carries a genuine signature by that key under the key's own algorithm.
+Native(k) == CASE k.kty = "oct" -> "HS256" [] k.kty = "RSA" -> "RS256" [] k.kty = "OKP" -> "EdDSA"
+               [] k.bits = 256 -> (IF k.crv = "secp256k1" THEN "ES256K" ELSE "ES256") [] k.bits = 384 -> "ES384" [] OTHER -> "ES512"
+CrossKeys == { AsymKey(b, 1, NONE, NONE) : b \in {"p256a", "k256a", "bp256a", "p384a", "rsa2048a", "ed25519a", "ed448a"} } \cup {OctKey(32, "a", NONE, NONE), OctKey(57, "a", NONE, NONE)}
+CrossAlgs == IF Quick THEN {"EdDSA", "ES256", "RS256", "HS256"} ELSE RealAlgs
+CrossPairs == { <<k, a>> \in CrossKeys \X CrossAlgs : k.kty # Family(a) }
+CrossScript(k, a, p) ==
+  << OpsOp(p), LoadOp(<<k, Pub(k)>>),
+     BNewOp, BSetKeyOp(a, 0), GenerateOp(0),
+     CNewOp, CSetKeyOp(a, 1),
+     VerifyOp(Tok(a, <<>>, Pm, Sig("valid", Native(k), Pub(k)))),
+     VerifyOp(Tok(a, <<>>, Pm, Sig("valid", a, Pub(k)))) >>
 C09Scripts == { Script(ka[1], ka[2], p) : ka \in Pairs, p \in Providers }
+              \cup { CrossScript(ka[1], ka[2], p) : ka \in CrossPairs, p \in Providers }
 MCSpec == ISpecWith(C09Scripts)
 =============================================================================
